@@ -148,6 +148,10 @@ def run(prop, tier):
             for bad in ("1.x.0", "1", "", "1.2.3rc"):
                 jobs.append(("version", model, bad, False, None))
                 jobs.append(("version", model, bad, False, ("-a",)))
+            # a requirement whose version is not a string at all is malformed too (and is not "no requirement")
+            for bad in (99, 1.5, True, None, {"x": 1}, [d["version"]]):
+                jobs.append(("version", model, bad, False, None))
+                jobs.append(("version", model, bad, False, ("-a",)))
             for k in (2**31, 2**32, 2 * 2**32):
                 jobs.append(("version", model, "%d.%d.%d" % (have[0] + k, have[1], have[2]), False, None))
                 jobs.append(("version", model, "%d.%d.%d" % (have[0], k, have[2]), False, None))
